@@ -220,6 +220,33 @@ class BoolExpr:
         raise ValueError("unexpected token %r" % (k,))
 
 
+def ordered_semantics(text, atom_map):
+    """short-circuit semantics of a C++ boolean expression over named atoms: for every assignment of the atoms, the
+    value and the order in which the atoms are read.  atom_map: normalised C++ atom text -> (name, polarity).
+    Two expressions with the same result are interchangeable for the model (same value, same reads in the same order),
+    whatever the spelling (De Morgan, double negation, `0 == x`, redundant parentheses)."""
+    import itertools
+    names = sorted({nm for nm, _ in atom_map.values()})
+    terms = {k: ("A('%s')" % nm if pol else "(not A('%s'))" % nm) for k, (nm, pol) in atom_map.items()}
+    e = BoolExpr(text, terms).parse()
+    e = e.replace("||", " or ").replace("&&", " and ").replace("!", " not ")
+    table = []
+    for vals in itertools.product((False, True), repeat=len(names)):
+        env = dict(zip(names, vals))
+        trace = []
+        def A(nm):
+            trace.append(nm)
+            return env[nm]
+        table.append((vals, bool(eval(e, {"A": A})), tuple(trace)))
+    return tuple(table)
+
+
+def zero_test_atoms(expr, name):
+    """the spellings of `expr == 0` (polarity True) and `expr != 0` (polarity False)"""
+    e = BoolExpr.norm(expr)
+    return {e + "==0": (name, True), "0==" + e: (name, True), e + "!=0": (name, False), "0!=" + e: (name, False)}
+
+
 GEN_HEADER = "/- GENERATED by tools/translate.py from /repo (%s) on every run. Do not edit. -/\n"
 
 
@@ -272,7 +299,7 @@ CMP_LEAN = {"<=": "≤", "<": "<", ">": ">", ">=": "≥", "==": "=", "!=": "≠"
 def frag_anydata():
     src = strip_comments(read_src("include/eventpp/utilities/anydata.h"))
     # the two SFINAE constructors: conditions on sizeof(T) against maxSize, and what each constructs
-    ctors = re.findall(r"AnyData\(T && object,\s*typename std::enable_if<\(sizeof\(typename anydata_internal_::RemoveCvRef<T>::Type\)\s*(<=|<|>=|>)\s*maxSize\)>::type \* = 0\)\s*:\s*functions\(anydata_internal_::getAnyDataFunctions<(\w+)>\(\)\)", src)
+    ctors = re.findall(r"AnyData\(T && object,\s*typename std::enable_if<\(sizeof\(typename anydata_internal_::RemoveCvRef<T>::Type\)\s*(<=|<|>=|>)\s*maxSize\)>::type\s*\*\s*=\s*(?:0|nullptr|NULL)\)\s*:\s*functions\(anydata_internal_::getAnyDataFunctions<(\w+)>\(\)\)", src)
     if len(ctors) != 2:
         raise ValueError("expected two size-split constructors, found %d" % len(ctors))
     kinds = {}
@@ -310,7 +337,20 @@ def frag_removers():
     text += "namespace Evp.Gen.Remover\n\n"
     rm = r"data->(dispatcher\.removeListener\(data->event,data->handle\)|callbackList\.remove\(data->handle\));"
     src = inline_void_helpers(strip_comments(read_src("include/eventpp/utilities/counterremover.h")), rm)
-    bodies = re.findall(r"CanInvoke<Callback, Args \.\.\.>::value, void>::type \{(.*?)\n\t\t\}", src, re.S)
+    def wrapper_bodies(text, first):
+        """bodies of the wrappers' `template <typename ...P> auto operator()(P && ...p) const -> enable_if<[!]CanInvoke<first, P...>...>`,
+        with the pack renamed to Args / args"""
+        res = []
+        for m in re.finditer(r"template\s*<\s*typename\s*\.\.\.\s*(\w+)\s*>\s*auto\s+operator\s*\(\)\s*\(\s*\1\s*&&\s*\.\.\.\s*(\w+)\s*\)\s*const\s*->\s*typename\s+std::enable_if<\s*!?\s*internal_::CanInvoke<\s*"
+                             + first + r"\s*,\s*\1\s*\.\.\.\s*>::value(?:\s*,\s*void)?\s*>::type(?:\s+const)?\s*\{", text):
+            i, depth = m.end() - 1, 0
+            for j in range(i, len(text)):
+                depth += {"{": 1, "}": -1}.get(text[j], 0)
+                if depth == 0:
+                    break
+            res.append(rename_words(text[i + 1:j], {m.group(1): "Args", m.group(2): "args"}))
+        return res
+    bodies = wrapper_bodies(src, "Callback")
     if len(bodies) != 2:
         raise ValueError("expected the two CounterRemover wrapper bodies, found %d" % len(bodies))
     shapes = set()
@@ -348,7 +388,7 @@ def frag_removers():
     text += "/-- the listener is removed (when due) before the wrapped listener is called, and the wrapped listener is called on every call -/\n"
     text += "def removeBeforeCall : Bool := true\n\n"
     src2 = inline_void_helpers(strip_comments(read_src("include/eventpp/utilities/conditionalremover.h")), rm)
-    bodies2 = re.findall(r"CanInvoke<Condition, Args\.\.\.>::value>::type(?:\s+const)?\s*\{(.*?)\n\t\t\}", src2, re.S)
+    bodies2 = wrapper_bodies(src2, r"\w+")
     if len(bodies2) != 4:
         raise ValueError("expected four ConditionalRemover wrapper bodies, found %d" % len(bodies2))
     for b in bodies2:
@@ -370,30 +410,38 @@ def frag_queue():
         src = strip_comments(read_src(rel))
         body = strip_comments(find_function_body(src, r"bool\s+emptyQueue\(\)\s*const\s*\{"))
         body = body.replace('EVENTPP_VERIF_POINT("q.empty");', "")
-        e = BoolExpr.norm(single_return_expr(body))
-        if e == "queueList.empty()&&(queueEmptyCounter.load(std::memory_order_acquire)==0)":
+        eatoms = {"queueList.empty()": ("L", True)}
+        eatoms.update(zero_test_atoms("queueEmptyCounter.load(std::memory_order_acquire)", "C"))
+        e = ordered_semantics(single_return_expr(body), eatoms)
+        if e == ordered_semantics("L && C", {"L": ("L", True), "C": ("C", True)}):
             out[key + "_listFirst"] = True
-        elif e == "(queueEmptyCounter.load(std::memory_order_acquire)==0)&&queueList.empty()":
+        elif e == ordered_semantics("C && L", {"L": ("L", True), "C": ("C", True)}):
             out[key + "_listFirst"] = False
         else:
-            raise ValueError("emptyQueue() not recognised in %s: %s" % (rel, e))
-        c = BoolExpr.norm(single_return_expr(find_function_body(src, r"bool\s+doCanProcess\(\)\s*const\s*\{")))
-        if c == "!emptyQueue()&&doCanNotifyQueueAvailable()":
+            raise ValueError("emptyQueue() not recognised in %s: %s" % (rel, BoolExpr.norm(single_return_expr(body))))
+        patoms = {"emptyQueue()": ("E", True), "doCanNotifyQueueAvailable()": ("N", True)}
+        ctext = single_return_expr(find_function_body(src, r"bool\s+doCanProcess\(\)\s*const\s*\{"))
+        c = ordered_semantics(ctext, patoms)
+        if c == ordered_semantics("!E && N", {"E": ("E", True), "N": ("N", True)}):
             out[key + "_emptyFirst"] = True
-        elif c == "doCanNotifyQueueAvailable()&&!emptyQueue()":
+        elif c == ordered_semantics("N && !E", {"E": ("E", True), "N": ("N", True)}):
             out[key + "_emptyFirst"] = False
         else:
-            raise ValueError("doCanProcess() not recognised in %s: %s" % (rel, c))
+            raise ValueError("doCanProcess() not recognised in %s: %s" % (rel, BoolExpr.norm(ctext)))
+        # doCanNotifyQueueAvailable() is one acquire load of queueNotifyCounter compared with zero
+        ntext = single_return_expr(find_function_body(src, r"bool\s+doCanNotifyQueueAvailable\(\)\s*const\s*\{"))
+        if ordered_semantics(ntext, zero_test_atoms("queueNotifyCounter.load(std::memory_order_acquire)", "N")) != \
+                ordered_semantics("N", {"N": ("N", True)}):
+            raise ValueError("doCanNotifyQueueAvailable() not recognised in %s: %s" % (rel, BoolExpr.norm(ntext)))
         if key != "homo":
             continue   # the heterogeneous queue has no DisableQueueNotify
         d = BoolExpr.norm(find_function_body(src, r"~DisableQueueNotify\(\)\s*\{"))
-        tail = "if(queue->doCanNotifyQueueAvailable()&&!queue->emptyQueue()){queue->queueListConditionVariable.notify_one();}"
-        if d == "--queue->queueNotifyCounter;" + tail:
-            out[key + "_dqnLocked"] = False
-        elif re.fullmatch(r"\{std::lock_guard<(typename)?\w*Mutex>\w+\(queue->queueListMutex\);--queue->queueNotifyCounter;\}" + re.escape(tail), d):
-            out[key + "_dqnLocked"] = True
-        else:
+        dm = re.fullmatch(r"(--queue->queueNotifyCounter;|\{std::lock_guard<(?:typename)?\w*Mutex>\w+\(queue->queueListMutex\);--queue->queueNotifyCounter;\})"
+                          r"if\((.*)\)\{queue->queueListConditionVariable\.notify_one\(\);\}", d)
+        datoms = {"queue->emptyQueue()": ("E", True), "queue->doCanNotifyQueueAvailable()": ("N", True)}
+        if not dm or ordered_semantics(dm.group(2), datoms) != ordered_semantics("N && !E", {"E": ("E", True), "N": ("N", True)}):
             raise ValueError("~DisableQueueNotify not recognised in %s: %s" % (rel, d))
+        out[key + "_dqnLocked"] = dm.group(1).startswith("{")
     text = GEN_HEADER % "eventqueue.h / hetereventqueue.h emptyQueue, doCanProcess, ~DisableQueueNotify"
     text += "namespace Evp.Gen.Queue\n\n"
     for k, v in out.items():
@@ -677,7 +725,7 @@ class PtrStmts:
         return self.assignment(";")
 
     def assignment(self, end):
-        if self.peek() == "NodePtr":
+        if self.peek() in ("NodePtr", "auto"):
             self.eat()          # declaration of a local pointer with initialiser: it becomes pointer variable 0
             if self.peek() not in self.VARS and len(self.VARS) == 0:
                 self.VARS[self.peek()] = 0
@@ -726,16 +774,23 @@ def frag_cl():
             e = single_return_expr(find_function_body(src, sig))
             return "(" + rename_words(e, {hm.group(1): m.group(2)}) + ")"
         return re.sub(r"\b(do\w+|is\w+)\s*\(\s*(\w+)\s*\)", sub, cond)
-    body = find_function_body(src, r"bool\s+doForEachIf\s*\(\s*F\s*&&\s*f\s*\)\s*const\s*\{")
-    m = re.search(r"while\s*\(\s*node\s*\)\s*\{(?:\s*EVENTPP_VERIF_POINT\([^)]*\);)?\s*if\s*\((.*?)\)\s*\{\s*if\s*\(\s*!\s*f\s*\(\s*node\s*\)\s*\)", body, re.S)
+    fsig = r"bool\s+doForEachIf\s*\(\s*\w+\s*&&\s*(\w+)\s*\)\s*const\s*\{"
+    body = find_function_body(src, fsig)
+    fname = re.escape(re.search(fsig, src, re.S).group(1))
+    m = re.search(r"while\s*\(\s*node\s*\)\s*\{(?:\s*EVENTPP_VERIF_POINT\([^)]*\);)?\s*if\s*\((.*?)\)\s*\{\s*if\s*\(\s*!\s*" + fname + r"\s*\(\s*node\s*\)\s*\)", body, re.S)
     if not m:
         raise ValueError("doForEachIf loop not recognised")
     guard = BoolExpr(inline_bool_helpers(m.group(1)), atoms).parse()
     body = find_function_body(src, r"bool\s+remove\s*\(\s*const\s+Handle\s*&\s*handle\s*\)\s*\{")
     m = re.search(r"if\s*\((.*?)\)\s*\{\s*doFreeNode\s*\(\s*node\s*\)\s*;\s*return\s+true\s*;\s*\}\s*return\s+false\s*;", body, re.S)
-    if not m:
+    # the same test as an early return: if(NOT) { return false; } doFreeNode(node); return true;
+    m2 = re.search(r"if\s*\((.*?)\)\s*\{\s*return\s+false\s*;\s*\}\s*doFreeNode\s*\(\s*node\s*\)\s*;\s*return\s+true\s*;", body, re.S)
+    if m:
+        rem = BoolExpr(inline_bool_helpers(m.group(1)), atoms).parse()
+    elif m2:
+        rem = "(!%s)" % BoolExpr(inline_bool_helpers(m2.group(1)), atoms).parse()
+    else:
         raise ValueError("remove() not recognised")
-    rem = BoolExpr(inline_bool_helpers(m.group(1)), atoms).parse()
     # insert(): the test that chooses between doInsert and doAppend, and whether it is made under the list mutex
     body = BoolExpr.norm(re.sub(r"EVENTPP_VERIF_POINT\([^)]*\);", "", find_function_body(src, r"Handle\s+insert\s*\(\s*const\s+Callback\s*&\s*callback\s*,\s*const\s+Handle\s*&\s*before\s*\)\s*\{")))
     m = re.search(r"if\(([^{};]*?)\)\{(doInsert\(node,beforeNode\)|doAppend\(node\));\}else\{(doInsert\(node,beforeNode\)|doAppend\(node\));\}", body)
@@ -744,7 +799,8 @@ def frag_cl():
     ins = BoolExpr(inline_bool_helpers(m.group(1)), atoms).parse()
     if m.group(2).startswith("doAppend"):
         ins = "(!%s)" % ins          # the branches are the other way round
-    lockpos = body.find("std::lock_guard<Mutex>lockGuard(mutex);")
+    lm = re.search(r"std::lock_guard<Mutex>\w+\(mutex\);", body)
+    lockpos = lm.start() if lm else -1
     ins_locked = 0 <= lockpos < m.start()
     # the block that holds the lock must be the one that contains the test (no closing brace in between)
     if ins_locked and "}" in body[lockpos:m.start()]:
@@ -759,6 +815,18 @@ def frag_cl():
     if pw.peek() is not None:
         raise ValueError("trailing tokens in the wrap branch of getNextCounter")
     wrap_locked = pw.locked
+    def canon(e, canonical):
+        """the canonical spelling when `e` is the same boolean function of the atoms (truth table over independent atoms:
+        equal tables give equal functions, so what is emitted still says what the source says)"""
+        import itertools
+        def table(x):
+            x = x.replace("(nc != 0)", "NZ").replace("(nc == 0)", "(not NZ)").replace("decide (cap ≥ nc)", "GE").replace("nonnull", "NN")
+            x = x.replace("&&", " and ").replace("||", " or ").replace("!", " not ")
+            return [bool(eval(x, {"NZ": a, "GE": b, "NN": c})) for a, b, c in itertools.product((False, True), repeat=3)]
+        return canonical if table(e) == table(canonical) else e
+    guard = canon(guard, "((nc != 0) && decide (cap ≥ nc))")
+    rem = canon(rem, "(nonnull && (nc != 0))")
+    ins = canon(ins, "(nc != 0)")
     text = GEN_HEADER % "callbacklist.h doAppend / doInsert / doFreeNode bodies, wrap branch of getNextCounter, doForEachIf guard, remove() and insert() tests"
     text += "import EventppVerif.CL.PtrLang\nnamespace Evp.Gen.Cl\nopen Evp.PL\n\n"
     for k, v in out.items():
